@@ -25,7 +25,7 @@ RULE = ('accepted generated models (gen_model.py) with layout noise; part A: for
         'after TypeChecker/FeatureChecker; part B: for every declaration block (global and template-local) x declaration index '
         'i x {truncation at a token inside declaration i, deletion of a token inside declaration i, stray token, unbalanced '
         'bracket} all variables, functions and typedefs declared by declarations 0..i-1 must be present, in order, with '
-        'unchanged type, initialiser and body. A mutation that produces no diagnostic is not a fault (counted, skipped). '
+        'unchanged type, initialiser and body; part C: fifteen hand-built models in which a guard, an invariant or an update carries (nested) forall / exists / sum quantifiers whose binder names - and the select binder of the same edge - are also global variables used by the labels that follow; every token position x {dropped token, unbalanced bracket, stray token, undeclared identifier, unterminated comment, truncation} is enumerated and compared as in part A (a scope left open by the faulted label changes how the following labels bind). A mutation that produces no diagnostic is not a fault (counted, skipped). '
         'Non-trivial: the faulted label is followed by a further label, edge, location or template (something a leaked fragment '
         'or frame could corrupt) / the faulted declaration has at least one predecessor; distinct = (model, block, token, fault).')
 
@@ -88,6 +88,45 @@ def decl_entries(doc, scope, names):
     fs = [(f['name'], f['type'], f.get('body'), json.dumps(f.get('params')), json.dumps(f.get('locals'))) for f in d['functions'] if f['name'] in names]
     ts = [(s['name'], s['kind'], s['type']) for s in d['symbols'] if s['name'] in names]
     return vs, fs, ts
+
+
+# ---------------------------------------------------------------- part C: quantifier labels in models whose names collide
+def collision_models():
+    """(name, xml with the quantified label, block path, label kind): the binder names k, j and the select binder s are also globals
+    that later labels use, so a scope left open by the faulted label is visible in what is parsed next"""
+    import cells
+    out = []
+    quants = ['forall (k : int[0,2]) a[k] > 0', 'exists (j : int[0,2]) forall (k : int[0,1]) a[k] > j', 'b && (forall (k : int[0,2]) a[k] >= 0) && k < 3',
+              '(sum (k : int[0,2]) a[k]) > 1', 'forall (k : int[0,1]) exists (j : int[0,1]) forall (s : int[0,1]) a[k] + a[j] > s']
+    later = '<transition><source ref="id1"/><target ref="id0"/><label kind="guard">k == 1 &amp;&amp; s == 2 &amp;&amp; j == 0</label><label kind="assignment">k = 2, j = s</label></transition>'
+    for qi, q in enumerate(quants):
+        g = 'int k; int s; int j; int a[3]; bool b; '
+        out.append(('guard:%d' % qi, cells.model(gdecl=g, select='s : int[0,1]', guard=q, assign='k = s, j = k', inv2='k <= 5 && j >= 0', extra_edges=later),
+                    '/nta/template[1]/transition[1]/label[2]', 'guard'))
+        out.append(('invariant:%d' % qi, cells.model(gdecl=g, inv=q, select='s : int[0,1]', guard='k >= 0', assign='k = s, j = k', inv2='k <= 5 && j >= 0', extra_edges=later),
+                    '/nta/template[1]/location[1]/label[1]', 'invariant'))
+        out.append(('assignment:%d' % qi, cells.model(gdecl=g, select='s : int[0,1]', guard='k >= 0', assign='b = ' + q, inv2='k <= 5 && j >= 0', extra_edges=later),
+                    '/nta/template[1]/transition[1]/label[3]', 'assignment'))
+    return out
+
+
+def in_quantifier_body(text, ti):
+    """is token index ti (non-space tokens) behind the header of a forall / exists / sum in this label?"""
+    toks = T.tokens(text)
+    for k, tk in enumerate(toks[:ti + 1]):
+        if tk[1] in ('forall', 'exists', 'sum'):
+            # header: kw ( id : type )  -> find the matching ')' of the header
+            depth = 0
+            for m in range(k + 1, len(toks)):
+                if toks[m][1] == '(':
+                    depth += 1
+                elif toks[m][1] == ')':
+                    depth -= 1
+                    if depth == 0:
+                        if ti > m:
+                            return True
+                        break
+    return False
 
 
 def worker(chk, wi, nw):
@@ -254,6 +293,47 @@ def worker(chk, wi, nw):
                                             return out
                                         break
         return None
+
+    # part C
+    for ci, (cname, xml0, path, kind) in enumerate(collision_models()):
+        if ci % nw != wi:
+            continue
+        doc = F.Doc(xml0)
+        blk = [b for b in doc.blocks if b['path'] == path]
+        if not blk:
+            stats.extra['collision_model_block_not_found'] += 1
+            continue
+        text = doc.text_of(blk[0])
+        c_b = run(xml0, 'builder-only', 'doc,diag')
+        if c_b is None or c_b['errors']:
+            stats.extra['collision_model_not_accepted'] += 1
+            continue
+        ntok = len(T.tokens(text))
+        for ti in range(ntok):
+            for fault in ('drop-token', 'unbalanced-open', 'unbalanced-close', 'stray-token', 'undeclared', 'unterminated-comment', 'truncate'):
+                if fault == 'truncate':
+                    tk = T.tokens(text)[ti]
+                    res = (text[:tk[2]], {}) if ti > 0 else None
+                else:
+                    res = F.apply_fault(text, fault, ti, variant=ti)
+                if res is None:
+                    continue
+                xml_mut = doc.serialize({path: res[0]})
+                f_b = run(xml_mut, 'builder-only', 'doc,diag')
+                if f_b is None:
+                    stats.extra['crashes_seen_(C01)'] += 1
+                    continue
+                if f_b.get('exc') or not f_b['errors']:
+                    stats.evaluations += 1
+                    continue
+                site = 'in-quantifier-body' if in_quantifier_body(text, ti) else 'plain'
+                stats.case('collision|%s|%d|%s' % (cname, ti, fault), nontrivial=True, classes=['collision-family', 'label:' + kind, 'fault:' + fault, 'site:' + site],
+                           sample={'model': cname, 'fault': fault, 'text': res[0][:120], 'errors': [(d['msg'], d['path']) for d in f_b['errors']][:2]})
+                v = compare_label_case(c_b, f_b, path, kind, 'builder')
+                if v:
+                    d = {'rule': v[0], 'block': kind, 'fault': fault, 'site': site}
+                    case = {'kind': 'label', 'base': xml0, 'xml': xml_mut, 'path': path, 'label': kind}
+                    chk.report(stats, d, v[1], case)
 
     n = 6 if chk.tier == 'quick' else 70
     common.run_hypothesis(chk, stats, st.tuples(M.models(need_clean=True, max_templates=2), st.integers(0, 10 ** 6)), test, n,
